@@ -6,8 +6,13 @@ Model driver for C02 (bubble-node engine, front `gate-1`, backs `chat-1`, `chat-
 
 Op language (a case = everything from a `reset` to the next one):
 
-    reset nc=<k>                       k fresh client connections c0..c(k-1), handshaken
-    bind c=<i> to=<name|->             the front session of client i gets chatid=<name> ("-" = empty string)
+    reset nc=<k>                       k fresh client connections c0..c(k-1), queued TOGETHER in an in-memory acceptor and
+                                       turned into sessions by the real accept loop (pomelo.StartAcceptor), then handshaken;
+                                       observation `ok`, or `ok conn=<c>:<sessions built on it>:<handshake responses>,…`
+                                       listing the connections that were not served by exactly one session
+    join n=<k>                         k MORE connections, queued together and accepted like those of reset, in the middle of a case
+    bind c=<i> to=<name|-|#n>          the front session of client i gets chatid=<name> ("-" = empty string; `#<n>` = the
+                                       NUMBER n instead of a string: the tie's route function panics on it)
     reqs q=<item>|<item>|…             item = <c>,<id>,<route>,<pay>; the messages are written at once
                                        (one frame per client); pay = v<N> | null | bad | empty | badtype
     pipe c=<i> q=<item>|…              a NEW connection (index i = number of connections so far) is opened while the
@@ -261,6 +266,7 @@ def modelStep (m : MState) (line : String) : MState × String :=
   let ws := words line
   match ws.head? with
   | some "reset" => ({}, "ok")
+  | some "join" => (m, "ok")
   | some "bind" =>
     match kvNat ws "c", kv ws "to" with
     | some c, some t =>
@@ -521,7 +527,18 @@ def specStep (st : SState) (line : String) : SState × String :=
   | [op, obs] =>
     let ws := words op
     match ws.head? with
-    | some "reset" => ({}, "ok")
+    | some "reset" | some "join" =>
+      let st' : SState := if ws.head? = some "reset" then {} else st
+      -- every connection the acceptor queued must have been turned into exactly one session that
+      -- answers the handshake (the harness lists the ones that were not: conn=<c>:<sessions>:<handshakes>,…)
+      match kv (words obs) "conn" with
+      | some bad =>
+        let first := (bad.splitOn ",").headD ""
+        let (c, n) := match first.splitOn ":" with
+          | c :: n :: _ => (c, n)
+          | _ => ("?", "?")
+        (st', s!"VIOLATION C02/connection-not-served c{c}: the accept loop built {n} session(s) on this accepted connection (all: {bad}); its requests can not get exactly one response")
+      | none => (st', "ok")
     | some "bind" =>
       match kvNat ws "c", kv ws "to" with
       | some c, some t => ({ st with keys := (c, if t = "-" then "" else t) :: st.keys.filter (·.1 ≠ c) }, "ok")
@@ -536,7 +553,10 @@ def specStep (st : SState) (line : String) : SState × String :=
       | none => (st, "ok")
     | some "topo" => ({ st with n2 := (kvNat ws "n2").getD st.n2 }, "ok")
     | some "reqs" | some "flood" => specReqs st ws obs false
-    | some "pipe" => specReqs st ws obs true
+    | some "pipe" =>
+      match kv (words obs) "conn" with
+      | some bad => (st, s!"VIOLATION C02/connection-not-served the accept loop did not build exactly one session on the new connection ({bad})")
+      | none => specReqs st ws obs true
     | some "frame" => (st, specFrame ws obs)
     | some "adv" => observe st obs false
     | some "flush" => observe st obs true
